@@ -189,6 +189,15 @@ class SimA(SimBase):
             self.server.on('message', self._h_message)
             self.server.on('disconnect', hd_legacy_sync
                            if self.legacy_disconnect else self._h_disconnect)
+        self.true_reason = {}
+        real_trigger = self.server._trigger_event
+
+        def spy_trigger(event, *args, **kwargs):
+            # (returns the coroutine of the real method)
+            if event == 'disconnect' and len(args) == 2:
+                self.true_reason.setdefault(args[0], args[1])
+            return real_trigger(event, *args, **kwargs)
+        self.server._trigger_event = spy_trigger
         self.app = engineio.ASGIApp(self.server, **(app_kwargs or {}))
 
     @property
